@@ -239,8 +239,8 @@ type reqRT struct {
 	owner    int             // index of the caller whose context the request carries (-1: none)
 	dch      <-chan struct{} // Done channel of the request context (nil: not cancellable)
 	state    int
-	overlap  bool // arrived while another request was blocked
-	servedOK bool // a 200 response with a well-formed document was handed out
+	overlap  bool  // arrived while another request was blocked
+	servedOK bool  // a 200 response with a well-formed document was handed out
 	abortErr error // reqAborted: Err() of the request context
 }
 
@@ -268,11 +268,11 @@ type callerRT struct {
 	ownerCancel  bool // the context of the caller that started the download was cancelled while this caller was parked on it
 	doneAtPark   int  // Done() evaluations on the caller's context when the endpoint was released (self-test)
 	// deadline plans
-	expired        bool      // own context ended because its deadline passed (before the call or while waiting)
-	collateralHow  string    // how the context of caller `collateral` ended: "cancel" / "expire"
-	retAt          time.Time // wall clock right after the last call returned (t1 of the bracket for the caller's own deadline)
-	otherDeadline  bool      // the deadline of another waiter passed while this caller was parked
-	ownerDeadline  bool      // the deadline of the caller that started the download passed while this caller was parked on it
+	expired       bool      // own context ended because its deadline passed (before the call or while waiting)
+	collateralHow string    // how the context of caller `collateral` ended: "cancel" / "expire"
+	retAt         time.Time // wall clock right after the last call returned (t1 of the bracket for the caller's own deadline)
+	otherDeadline bool      // the deadline of another waiter passed while this caller was parked
+	ownerDeadline bool      // the deadline of the caller that started the download passed while this caller was parked on it
 	// hold plans
 	window   bool  // the caller started while a finished download was parked at the hook (result handed out, goroutine not finished)
 	cacheAlt []JWK // window callers: the model cache as it was before the parked downloads were answered
